@@ -128,5 +128,6 @@ pub fn run(src: String, args: Vec<String>) -> String {
             )
         })
         .expect("spawn");
-    h.join().unwrap_or_else(|_| String::from("{\"k\":\"panic\"}"))
+    h.join()
+        .unwrap_or_else(|_| String::from("{\"k\":\"panic\"}"))
 }
